@@ -81,6 +81,10 @@ CHECKS = {
          "A generated rule gets an undeclared input feeding a chosen subset of its targets; after a successful build the input is changed and re-execution is forced (verified in the call log); the build must fail with exactly one Contradiction naming exactly the differing targets, leave the rule's history (read back through ruler's own reader) unchanged, run no descendant and leave unrelated rules alone; with the input restored and re-execution forced again the build must succeed.",
          "Declared sources are byte-identical across the builds; all 2^k subsets of affected targets including the empty one are generated.",
          "property-based testing: metamorphic scenario (perturb an undeclared input, force re-execution) with exact-error oracle", "2 C17"),
+ "C19": ("exploration",
+         "On the real file system, ruler directories produced by generated build/clean/edit histories (built binary, /bin/sh commands) are served by a real `serve` child process; a minimal HTTP client requests every cached hash, absent hashes, every recorded (rule, sources) pair, unknown pairs and a generated batch of malformed and hostile names (traversal, encodings, over-long, near-miss hashes, names of planted canary files, some of them named like valid hashes) and compares status and body with the harness's own hashes; no canary byte may be served and the server must stay up.",
+         "Only GET /files/<seg> and GET /rules/<seg>/<seg> are judged. Rule-endpoint request strings are formed with the crate's own ticket code (as a client would); expected bodies with the harness's own SHA-256/base-62.",
+         "property-based testing / request fuzzing against a live server with an exact-response oracle", "2 C19"),
 }
 
 NOT_YET = {}
